@@ -233,6 +233,11 @@ func Run(repoDir, verifDir, outDir, rtSource string) (*Result, error) {
 					usedRt = true
 				case *ast.FuncDecl:
 					if n.Body != nil {
+						if hook := defineHook(n, p.TypesInfo); hook != nil {
+							// a binding made in a scope without a parent is a program-level name
+							n.Body.List = append([]ast.Stmt{hook}, n.Body.List...)
+							res.Counts["define_hooks"]++
+						}
 						n.Body.List = append([]ast.Stmt{fuelCall()}, n.Body.List...)
 						res.Counts["fuel_points"]++
 						usedRt = true
@@ -422,4 +427,45 @@ func rewriteMapRange(n *ast.RangeStmt, site int) {
 func isBlank(e ast.Expr) bool {
 	id, ok := e.(*ast.Ident)
 	return ok && id.Name == "_"
+}
+
+// defineHook: for a method `Define(name string, ...)` whose receiver is a pointer to a struct with a
+// pointer field `Parent` of the receiver's own type, the statement
+// `if recv.Parent == nil { verifrt.DefinedGlobal(name) }`; nil for every other function.
+func defineHook(fd *ast.FuncDecl, info *types.Info) ast.Stmt {
+	if fd.Recv == nil || fd.Name.Name != "Define" || len(fd.Recv.List) != 1 || len(fd.Recv.List[0].Names) != 1 {
+		return nil
+	}
+	if fd.Type.Params == nil || len(fd.Type.Params.List) == 0 || len(fd.Type.Params.List[0].Names) == 0 {
+		return nil
+	}
+	first := fd.Type.Params.List[0]
+	if b, ok := info.TypeOf(first.Type).(*types.Basic); !ok || b.Kind() != types.String {
+		return nil
+	}
+	rt := info.TypeOf(fd.Recv.List[0].Type)
+	ptr, ok := rt.(*types.Pointer)
+	if !ok {
+		return nil
+	}
+	st, ok := ptr.Elem().Underlying().(*types.Struct)
+	if !ok {
+		return nil
+	}
+	found := false
+	for i := 0; i < st.NumFields(); i++ {
+		if st.Field(i).Name() == "Parent" && types.Identical(st.Field(i).Type(), rt) {
+			found = true
+		}
+	}
+	if !found {
+		return nil
+	}
+	recv := fd.Recv.List[0].Names[0].Name
+	return &ast.IfStmt{
+		Cond: &ast.BinaryExpr{X: &ast.SelectorExpr{X: ast.NewIdent(recv), Sel: ast.NewIdent("Parent")}, Op: token.EQL, Y: ast.NewIdent("nil")},
+		Body: &ast.BlockStmt{List: []ast.Stmt{&ast.ExprStmt{X: &ast.CallExpr{
+			Fun:  &ast.SelectorExpr{X: ast.NewIdent("verifrt"), Sel: ast.NewIdent("DefinedGlobal")},
+			Args: []ast.Expr{ast.NewIdent(first.Names[0].Name)}}}}},
+	}
 }
